@@ -46,9 +46,12 @@ Definition interp_ceqv (e : ceqv) (x y : option fmsg) : bool :=
   end.
 (* the other construction-time options are arguments of the cases already: the id interceptor (idf), an
    absent initial value (vinit = None), the initial contents *)
-Record fcfg := mkCfg { cf_equiv : option ceqv }.
+(* cf_writable: the writable fields the shared Value AND Collection are constructed with (resource.WithWritablePaths);
+   None = writes are not restricted.  opt.go fieldUpdater: the union with the call's WithMoreWritablePaths, lifted
+   by WithAllFieldsWritable (Resource/Flat.v mk_writer). *)
+Record fcfg := mkCfg { cf_equiv : option ceqv; cf_writable : option (list fld) }.
 Definition cfg_eq (cfg : fcfg) : option (option fmsg -> option fmsg -> bool) := option_map interp_ceqv (cf_equiv cfg).
-Definition cfg_default := mkCfg None.
+Definition cfg_default := mkCfg None None.
 
 Inductive ccase :=
 (* a forced schedule: thread t runs prog[t]; results[t] is what it returned; finals are Get / List
@@ -84,27 +87,31 @@ Inductive ccase :=
 Notation lcall := (call fmsg fwriter (list fld)).
 Notation loutcome := (outcome fmsg).
 
-Definition to_call (c : fcall) : lcall :=
+(* rw = the writable fields of the resource the call is issued on *)
+Definition to_call_w (rw : option (list fld)) (c : fcall) : lcall :=
   match c with
-  | FSet msg o => @CSet fmsg fwriter (list fld) msg (to_wopts None o)
-  | FUpdate id msg o => @CUpdate fmsg fwriter (list fld) id msg (to_wopts None o)
-  | FAdd id msg o => @CUpdate fmsg fwriter (list fld) id msg (as_add (to_wopts None o))
-  | FDelete id o => @CDelete fmsg fwriter (list fld) id (to_wopts None o)
+  | FSet msg o => @CSet fmsg fwriter (list fld) msg (to_wopts rw o)
+  | FUpdate id msg o => @CUpdate fmsg fwriter (list fld) id msg (to_wopts rw o)
+  | FAdd id msg o => @CUpdate fmsg fwriter (list fld) id msg (as_add (to_wopts rw o))
+  | FDelete id o => @CDelete fmsg fwriter (list fld) id (to_wopts rw o)
   | FSubV ro => @CSubV fmsg fwriter (list fld) (to_ropts ro)
   | FSubC ro | FSubL None ro => @CSubC fmsg fwriter (list fld) (to_ropts ro)
   | FSubID id ro | FSubL (Some id) ro => @CSubID fmsg fwriter (list fld) id (to_ropts ro)
   end.
+Definition to_call : fcall -> lcall := to_call_w None.
 
 Definition init_v (vinit : option fmsg) : vstate fmsg := mkV vinit (fclock 0) 1.
 Definition init_c (cinit : list (string * fmsg * Z)) : cstate fmsg :=
   mkC (map (fun p => (fst (fst p), mkItem (snd (fst p)) (snd p))) cinit) 0.
 
 (* v0: the pinned create path / no commit-number filter; v1: no turnstile (publication not ordered) *)
-Definition f_run_gen (v0 v1 : bool) (i : option idf) (prog : list fcall) (sched : list nat)
+Definition f_run_gen_w (rw : option (list fld)) (v0 v1 : bool) (i : option idf) (prog : list fcall) (sched : list nat)
            (vinit : option fmsg) (cinit : list (string * fmsg * Z)) :=
-  run fmsg_eqb fzero fw_validate fw_merge fclock str_ltb (idfun_of i) v0 v1 (map to_call prog) sched
-      (init (map to_call prog) (init_v vinit) (init_c cinit)).
+  run fmsg_eqb fzero fw_validate fw_merge fclock str_ltb (idfun_of i) v0 v1 (map (to_call_w rw) prog) sched
+      (init (map (to_call_w rw) prog) (init_v vinit) (init_c cinit)).
+Definition f_run_gen := f_run_gen_w None.
 Definition f_run (v0 : bool) := f_run_gen v0 false.
+Definition f_run_w (rw : option (list fld)) (v0 : bool) := f_run_gen_w rw v0 false.
 (* the code before the turnstile: pinned behaviour before the fix of known finding C03/1 *)
 Definition f_run_v1 := f_run_gen false true.
 
@@ -197,9 +204,9 @@ Definition id_at (it : list string) (z : Z) : string := nth (Z.to_nat z) it ""%s
 Definition tok_val (vt : list fmsg) (m : fmsg) : Z := index_of fmsg_eqb m vt 0.
 Definition val_at (vt : list fmsg) (z : Z) : option fmsg := if z <? 0 then None else nth_error vt (Z.to_nat z).
 
-Definition f_lrun_gen (v0 v1 : bool) (i : option idf) (prog : list fcall) (sched : list nat)
+Definition f_lrun_gen_w (rw : option (list fld)) (v0 v1 : bool) (i : option idf) (prog : list fcall) (sched : list nat)
            (vinit : option fmsg) (cinit : list (string * fmsg * Z)) : state fmsg (list fld) * list flsub :=
-  let cprog := map to_call prog in
+  let cprog := map (to_call_w rw) prog in
   let ss := classify prog (fun _ => O) sched in
   let s00 := init cprog (init_v vinit) (init_c cinit) in
   let splain := run fmsg_eqb fzero fw_validate fw_merge fclock str_ltb (idfun_of i) v0 v1 cprog (threads_of ss) s00 in
@@ -209,7 +216,9 @@ Definition f_lrun_gen (v0 v1 : bool) (i : option idf) (prog : list fcall) (sched
                        fmsg_eqb fzero fw_validate fw_merge fclock str_ltb (idfun_of i) v0 v1 cprog
                        (lossy_of_prog i prog) ss (s00, []) in
   (s, map (drained fr_filter None (id_at it) (val_at vt)) ls).
+Definition f_lrun_gen := f_lrun_gen_w None.
 Definition f_lrun (v0 : bool) := f_lrun_gen v0 false.
+Definition f_lrun_w (rw : option (list fld)) (v0 : bool) := f_lrun_gen_w rw v0 false.
 
 Definition lc_matches (c : flchange) (o : ochange) : bool :=
   String.eqb (lc_id c) (oc_id o) && (lc_time c =? oc_time o) && (lc_kind c =? oc_kind o) &&
@@ -248,11 +257,11 @@ Fixpoint all_upto (n : nat) (f : nat -> bool) : bool :=
 (* a forced schedule against the model; eq = the equivalence the resources were constructed with.  The
    WRITE side of the comparison (results, final reads, number of steps) does not mention eq: the model of the
    write path has no equivalence in it.  Only what subscribers receive depends on it. *)
-Definition agrees_sched (eq : option (option fmsg -> option fmsg -> bool))
+Definition agrees_sched (rw : option (list fld)) (eq : option (option fmsg -> option fmsg -> bool))
            (i : option idf) (vinit : option fmsg) (cinit : list (string * fmsg * Z)) (prog : list fcall) (sched : list nat)
            (results : list fout) (fv : option fmsg) (fc : list (string * fmsg))
            (vstreams : list (nat * list ovchange)) (cstreams : list (nat * list ochange)) (closed : list nat) : bool :=
-      let '(s, ls) := f_lrun model_v0 i prog sched vinit cinit in
+      let '(s, ls) := f_lrun_w rw model_v0 i prog sched vinit cinit in
       (Nat.eqb (st_stutter s) 0) && all_done s &&
       list_match pc_matches (st_pcs s) results &&
       ofm_eqb (v_val (w_v (st_w s))) fv &&
@@ -287,10 +296,10 @@ Definition has_lossy (prog : list fcall) : bool :=
 Definition agrees (c : ccase) : bool :=
   match c with
   | CaseSched i vinit cinit prog sched results fv fc vstreams cstreams closed =>
-      agrees_sched None i vinit cinit prog sched results fv fc vstreams cstreams closed
+      agrees_sched None None i vinit cinit prog sched results fv fc vstreams cstreams closed
   | CaseCfg cfg i vinit cinit prog sched results fv fc vstreams cstreams closed =>
       negb (has_lossy prog) &&
-      agrees_sched (cfg_eq cfg) i vinit cinit prog sched results fv fc vstreams cstreams closed
+      agrees_sched (cf_writable cfg) (cfg_eq cfg) i vinit cinit prog sched results fv fc vstreams cstreams closed
   | CaseHist _ _ _ _ _ _ => true      (* no schedule to compare: judged by the oracle alone *)
   | CaseFree _ _ _ _ _ _ _ _ _ _ => true
   | CaseGen i cinit prog cands sched results reported created fc =>
@@ -345,7 +354,7 @@ Definition final_matches (vc : vstate fmsg * cstate fmsg) (fv : option fmsg) (fc
 
 (* depth-first search: linearize next any call that no pending call precedes and whose reference
    result is the observed one *)
-Fixpoint lin_search (i : option idf) (fuel : nat) (pending : list hcall) (vc : vstate fmsg * cstate fmsg)
+Fixpoint lin_search (rw : option (list fld)) (i : option idf) (fuel : nat) (pending : list hcall) (vc : vstate fmsg * cstate fmsg)
          (fv : option fmsg) (fc : list (string * fmsg)) : bool :=
   match pending with
   | [] => final_matches vc fv fc
@@ -355,8 +364,8 @@ Fixpoint lin_search (i : option idf) (fuel : nat) (pending : list hcall) (vc : v
     | S f =>
       existsb (fun h =>
         negb (existsb (fun h' => precedes h' h) pending) &&
-        (let '(vc', r) := f_spec_call i vc (to_call (h_call h)) in
-         out_matches r (h_out h) && lin_search i f (remove_first h pending) vc' fv fc)) pending
+        (let '(vc', r) := f_spec_call i vc (to_call_w rw (h_call h)) in
+         out_matches r (h_out h) && lin_search rw i f (remove_first h pending) vc' fv fc)) pending
     end
   end.
 
@@ -367,13 +376,13 @@ Fixpoint keys_distinct (l : list hcall) : bool :=
   | h :: r => negb (existsb (hcall_key_eqb h) r) && keys_distinct r
   end.
 
-Definition linearizable_b (i : option idf) (vinit : option fmsg) (cinit : list (string * fmsg * Z))
+Definition linearizable_b (rw : option (list fld)) (i : option idf) (vinit : option fmsg) (cinit : list (string * fmsg * Z))
            (hist : list hcall) (fv : option fmsg) (fc : list (string * fmsg)) : bool :=
   let writes := filter (fun h => is_write_call (h_call h)) hist in
   forallb allowed_code writes &&
   let eff := filter (fun h => negb (is_lost h)) writes in
   keys_distinct eff &&
-  lin_search i (List.length eff) eff (init_v vinit, init_c cinit) fv fc.
+  lin_search rw i (List.length eff) eff (init_v vinit, init_c cinit) fv fc.
 
 (* invocation = index of the thread's first step, response = index of its last step *)
 Fixpoint first_idx (t : nat) (k : Z) (sched : list nat) : Z :=
@@ -450,15 +459,15 @@ Fixpoint gen_distinct (i : option idf) (l : list string) : bool :=
 Definition C02_ok (c : ccase) : bool :=
   match c with
   | CaseSched i vinit cinit prog sched results fv fc _ _ _ =>
-      linearizable_b i vinit cinit (hist_of 0 prog results sched) fv fc
+      linearizable_b None i vinit cinit (hist_of 0 prog results sched) fv fc
   | CaseHist i vinit cinit hist fv fc =>
-      linearizable_b i vinit cinit (map (fun p => mkH (fst (fst (fst p))) (snd (fst (fst p))) (snd (fst p)) (snd p)) hist) fv fc
+      linearizable_b None i vinit cinit (map (fun p => mkH (fst (fst (fst p))) (snd (fst (fst p))) (snd (fst p)) (snd p)) hist) fv fc
   | CaseFree _ _ _ _ _ _ _ _ _ _ => true
   (* the configured equivalence is NOT an argument of the predicate: the sequential reference has none *)
-  | CaseCfg _ i vinit cinit prog sched results fv fc _ _ _ =>
-      linearizable_b i vinit cinit (hist_of 0 prog results sched) fv fc
+  | CaseCfg cfg i vinit cinit prog sched results fv fc _ _ _ =>
+      linearizable_b (cf_writable cfg) i vinit cinit (hist_of 0 prog results sched) fv fc
   | CaseGen i cinit prog cands sched results reported created fc =>
-      linearizable_b i None cinit (hist_of 0 (subst_reported i 0 prog reported) results sched) None fc &&
+      linearizable_b None i None cinit (hist_of 0 (subst_reported i 0 prog reported) results sched) None fc &&
       gen_ok i 0 prog cands results reported &&
       (existsb is_delete_call prog || gen_distinct i (created_ids i 0 prog results reported))
   end.
